@@ -202,6 +202,22 @@ func c10Corpus(scs []*c10Scenario, add func(*c10Plan)) {
 			}
 		}
 	}
+	for _, sc := range scs {
+		if sc.Name != "chunks" || sc.Opt == nil {
+			continue
+		}
+		// seeded C10-1 (lrufile.Read took "last chunk" from the chunk index: a read that starts exactly
+		// at the end of an old file of k * 32 KiB never saw EOF and spun): a control leaves the old
+		// offset at the end of the old file and the next one adds a byte, per series of the scenario
+		// whose old files are 1, 2, 3 chunks, 1 chunk + 1, 2 chunks - 1 and 2 blocks long
+		for _, m := range c10PatchMuts(sc.Opt) {
+			if m.Always && m.Class == "ctl.add-at-end" {
+				s := sc.Opt.clone()
+				m.Apply(s)
+				plan(sc, "opt", c10FPatFresh, "add starting exactly at the end of the old file: "+m.Desc, s)
+			}
+		}
+	}
 	if blocks != nil {
 		// #14: container needs more hashes than the signature carries
 		n := len(blocks.Sig.Msgs)
